@@ -767,6 +767,9 @@ func runC14(c *Ctx) {
 	r.Rule("R3", "no reference-typed parameter of an exported tracker method is stored into tracker state")
 	r.Rule("R4", "the mutex locked is the tracker's own, never a copy: no function of package state receives or copies by value a struct that contains a sync.Mutex or sync.RWMutex (a value receiver on the tracker would lock a private copy of the mutex and exclude nobody)")
 	c.noLockCopiesRule("R4", c.stateFuncs())
+	r.Rule("R5", "snapshots are formatted and compared without the tracker lock, on values their caller owns: outside package initialisation no function of package state writes package-level storage (a variable, a map or slice held in one, a slice of a package-level array) - shared scratch space would let concurrent callers see each other's data")
+	c.noGlobalWritesRule("R5", c.stateFuncs())
+	c.formatterReacquireRule("R1", c.stateFuncs())
 	funcs := c.stateFuncs()
 	internal := map[*types.Named]bool{}
 	for _, n := range []string{"stateTracker", "nick", "channel"} {
@@ -1129,4 +1132,147 @@ func (c *Ctx) noLockCopiesRule(rule string, funcs []*ssa.Function) {
 	}
 	r.Add(rule, "no-lock-copies", "-", "", fmt.Sprintf("none of the %d functions examined receives or copies a lock-holding struct by value", n), nBad == 0, fmt.Sprintf("%d copies", nBad))
 	r.Floor(rule, "functions examined for lock copies", n, 40)
+}
+
+// noGlobalWritesRule: C14.R5 - outside package initialisation no function of
+// package state writes package-level storage (directly, through a map held in
+// a package-level variable, or through a slice of a package-level array).
+// Snapshot methods run without the tracker lock on values the caller owns;
+// shared scratch storage would make concurrent callers see each other's data.
+func (c *Ctx) noGlobalWritesRule(rule string, funcs []*ssa.Function) {
+	r := c.R
+	n, nBad := 0, 0
+	var rootG func(v ssa.Value, seen map[ssa.Value]bool, d int) *ssa.Global
+	rootG = func(v ssa.Value, seen map[ssa.Value]bool, d int) *ssa.Global {
+		if v == nil || seen[v] || d > 12 {
+			return nil
+		}
+		seen[v] = true
+		switch t := v.(type) {
+		case *ssa.Global:
+			return t
+		case *ssa.FieldAddr:
+			return rootG(t.X, seen, d+1)
+		case *ssa.IndexAddr:
+			return rootG(t.X, seen, d+1)
+		case *ssa.Slice:
+			return rootG(t.X, seen, d+1)
+		case *ssa.Phi:
+			for _, e := range t.Edges {
+				if g := rootG(e, seen, d+1); g != nil {
+					return g
+				}
+			}
+		case *ssa.Call:
+			// append(s, ...) may still write into (and return) s's storage
+			if b, ok := t.Call.Value.(*ssa.Builtin); ok && b.Name() == "append" && len(t.Call.Args) > 0 {
+				return rootG(t.Call.Args[0], seen, d+1)
+			}
+		case *ssa.UnOp:
+			if t.Op != token.MUL {
+				return nil
+			}
+			// a map or slice header loaded from a global: updates go to shared storage
+			if g, ok := t.X.(*ssa.Global); ok {
+				switch t.Type().Underlying().(type) {
+				case *types.Map, *types.Slice, *types.Pointer:
+					return g
+				}
+			}
+		}
+		return nil
+	}
+	rootGlobal := func(v ssa.Value) *ssa.Global { return rootG(v, map[ssa.Value]bool{}, 0) }
+	for _, fn := range funcs {
+		if fn.Name() == "init" || strings.HasPrefix(fn.Name(), "init#") || fn.Synthetic != "" {
+			continue
+		}
+		n++
+		funcInstrs(fn, func(in ssa.Instruction) {
+			var g *ssa.Global
+			what := ""
+			switch t := in.(type) {
+			case *ssa.Store:
+				g, what = rootGlobal(t.Addr), "store"
+			case *ssa.MapUpdate:
+				g, what = rootGlobal(t.Map), "map update"
+			case *ssa.Call:
+				if b, ok := t.Call.Value.(*ssa.Builtin); ok && (b.Name() == "append" || b.Name() == "copy" || b.Name() == "delete") && len(t.Call.Args) > 0 {
+					g, what = rootGlobal(t.Call.Args[0]), b.Name()
+				}
+			}
+			if g == nil {
+				return
+			}
+			nBad++
+			r.Add(rule, "global-write:"+c.FuncKey(fn)+":"+g.Name(), c.InstrPos(in), c.FuncKey(fn), "package-level storage is written only during package initialisation", false, what+" into package-level "+g.Name()+" in "+c.FuncKey(fn))
+		})
+	}
+	r.Add(rule, "no-global-writes", "-", "", fmt.Sprintf("none of the %d functions examined writes package-level storage after initialisation", n), nBad == 0, fmt.Sprintf("%d writes", nBad))
+	r.Floor(rule, "functions examined for writes to package-level storage", n, 40)
+}
+
+// formatterReacquireRule: no value whose String / Error / Format / GoString
+// method takes a lock is handed to a logging or fmt call while that lock is
+// held: a logger that formats its arguments would call the method and the
+// (non re-entrant) lock would be acquired twice on one stack.
+func (c *Ctx) formatterReacquireRule(rule string, funcs []*ssa.Function) {
+	r := c.R
+	ls := c.ComputeLocksets(funcs)
+	acq := c.Acquires(funcs)
+	n := 0
+	lockingFormatter := func(t types.Type) (string, string) {
+		ms := c.SSA.MethodSets.MethodSet(t)
+		for i := 0; i < ms.Len(); i++ {
+			nm := ms.At(i).Obj().Name()
+			if nm != "String" && nm != "Error" && nm != "Format" && nm != "GoString" {
+				continue
+			}
+			fn := c.SSA.MethodValue(ms.At(i))
+			if fn == nil {
+				continue
+			}
+			target := c.unthunk(fn)
+			if target == nil {
+				target = fn
+			}
+			for l := range acq[target] {
+				return c.FuncKey(target), l
+			}
+		}
+		return "", ""
+	}
+	for _, fn := range funcs {
+		if ls.Dead[fn] {
+			continue
+		}
+		for _, cs := range CallSites(fn) {
+			name := calleeName(cs.Common())
+			if !strings.HasPrefix(name, modPath+"/logging.") && !strings.HasPrefix(name, "fmt.") && !strings.HasPrefix(name, "("+modPath+"/logging.") {
+				continue
+			}
+			var vals []ssa.Value
+			for _, a := range cs.Common().Args {
+				if el := c.varargElemsOrdered(a); el != nil {
+					vals = append(vals, el...)
+				} else {
+					vals = append(vals, a)
+				}
+			}
+			for _, v := range vals {
+				mi, ok := v.(*ssa.MakeInterface)
+				if !ok {
+					continue
+				}
+				n++
+				m, lock := lockingFormatter(mi.X.Type())
+				if m == "" {
+					continue
+				}
+				held := ls.Held(cs, lock) != 0
+				r.Add(rule, "formatter-reacquire:"+c.FuncKey(fn)+":"+m, c.InstrPos(cs), c.FuncKey(fn), "a value whose formatting method takes "+lock+" is not logged while that lock is held", !held, "argument of type "+typeString(mi.X.Type())+" is formatted by "+m+", which locks "+lock+" - already held here")
+			}
+		}
+	}
+	r.Add(rule, "formatter-arguments", "-", "", "interface arguments of logging / fmt calls examined", true, fmt.Sprintf("%d arguments", n))
 }
